@@ -17,6 +17,7 @@ def bmaxOnchain : Nat := 900000
 structure NodeIn where
   view : NodeView
   inflightIds : List String
+  readd : List Proposal   -- added by a flow while Observation ran: after the pre-build hooks, before the views
 
 structure NodeOut where
   obs : Observation
@@ -52,7 +53,8 @@ def decodeCase (input impl : Json) : R Case := do
     let v : NodeView :=
       { staged := staged, logProps := ← listF proposal nj "log", condProps := ← listF proposal nj "cond",
         hist := ← listF blockKey nj "hist" }
-    nodes := nodes ++ [{ view := v, inflightIds := ← listF asStr nj "inflight" }]
+    nodes := nodes ++ [{ view := v, inflightIds := ← listF asStr nj "inflight",
+                         readd := ← listOf proposal (fieldD nj "readd" .null) }]
   let prev ← match fieldD x "prev" .null with
     | .null => pure none
     | j => some <$> outcome j
@@ -98,7 +100,10 @@ structure NodeVerdict where
 
 def judgeNode (c : Case) (ni : NodeIn) (out : NodeOut) : NodeVerdict :=
   let maxLen := Gen.maxObservationLength
-  let v := match c.prev with | some p => preBuild c.ctx p ni.view | none => ni.view
+  let v0 := match c.prev with | some p => preBuild c.ctx p ni.view | none => ni.view
+  let v : NodeView :=
+    { v0 with logProps := v0.logProps ++ ni.readd.filter (fun p => c.ctx.utg p.upkeepID = .log)
+              condProps := v0.condProps ++ ni.readd.filter (fun p => c.ctx.utg p.upkeepID = .condition) }
   let inflight := inflightOf ni.inflightIds
   let inflightP := inflightPOf ni.inflightIds
   let si : SizeInfo := { base := out.base, encLen := fun r => (c.lenOf.get? r.workID).getD 0 }
@@ -124,7 +129,8 @@ def judgeNode (c : Case) (ni : NodeIn) (out : NodeOut) : NodeVerdict :=
     (if decide (canon.length = limits.obsPerformables) then ["exactly-100"] else []) ++
     (if decide (canon.length < v.staged.length) then ["inflight-filtered"] else []) ++
     (if decide (v.staged.length < ni.view.staged.length) then ["prev-agreed-removed"] else []) ++
-    (if decide (v.logProps.length + v.condProps.length < ni.view.logProps.length + ni.view.condProps.length) then ["prev-surfaced-removed"] else []) ++
+    (if decide (v0.logProps.length + v0.condProps.length < ni.view.logProps.length + ni.view.condProps.length) then ["prev-surfaced-removed"] else []) ++
+    (if !ni.readd.isEmpty then ["proposal-readded-during-observation"] else []) ++
     (if decide (availLog.length > limits.obsLogProposals) then ["log-proposals-capped"] else []) ++
     (if decide (availCond.length > limits.obsCondProposals) then ["cond-proposals-capped"] else []) ++
     (if decide (availLog.length < v.logProps.length) || decide (availCond.length < v.condProps.length) then ["proposal-inflight-filtered"] else []) ++
@@ -183,7 +189,10 @@ def handle (input impl : Json) : R Reply := do
     (if c.prev.isSome then ["has-prev"] else []) ++
     infoTag "expired" "expired-results-fed" ++ infoTag "old-but-live" "old-results-still-live" ++
     infoTag "withheld" "payloads-withheld-by-coordinator" ++ infoTag "bad" "ineligible-or-failed-results-fed" ++
-    infoTag "proposal-expired" "expired-proposals-fed"
+    infoTag "proposal-expired" "expired-proposals-fed" ++
+    infoTag "empty-round-at-window-start" "script:empty-round-at-window-start" ++
+    infoTag "same-work-candidates-again" "script:same-work-candidates-again" ++
+    infoTag "same-head-reorg" "script:same-head-reorg" ++ infoTag "tail-corrected" "script:history-tail-corrected"
   let nontrivial := c.nodes.any (fun n => decide (n.view.staged.length ≥ 2))
   pure { agree := agree, specModel := sm, specImpl := si, diff := diff, fail := fail,
          nontrivial := nontrivial, tags := tags }
